@@ -155,6 +155,11 @@ def compiled_cases(run):
     for di, (doc, base, positions) in enumerate(DOCS):
         for oi, opts in enumerate([{}, {"normalization": "rust", "other_variant": True}, {"skip_none": True}]):
             c = C.make_case("d%do%d" % (di, oi), s, doc, rng, options=opts, fmt=["sdl", "json", "sdl"][oi])
+            if oi == 2:
+                # SDL that declares the built-in scalars explicitly (legal, and common in schema dumps)
+                from ..model import render_sdl
+                c["schema_text"] = render_sdl(s, declare_builtins=True)
+                c["schema_ext"] = "graphql"
             vecs = [{"id": "base", "kind": "resp", "target": doc["operations"][0]["name"], "input": base, "expect": {"ok": True, "reser": norm_expected(base)}, "label": "conforming"}]
             for pi, (path, kind) in enumerate(positions):
                 values = STR_VALUES[:6] + INT_VALUES + BAD_VALUES + [None]
